@@ -380,3 +380,22 @@ def c10(run):
     run.cov['rule'] = ('EncodeSignature / DecodeSignature on r, s in {0, 1, 255, 256, 2^k, n-1, n, n+1, 2^(8 size)-1, 2^(8 size), -1, random} for the 3 curves, signatures of 7 lengths; ComputeHash on block-boundary lengths; '
                        '3 ECDSA algorithms x keys from small scalars, scalars with leading zero bytes, coordinates with leading zero bytes x messages 0..1000 (thorough: 64 KiB) bytes: library signature verified by crypto/ecdsa with the prescribed hash, crypto/ecdsa signature verified by the library, under the derived / exported / compressed / private / Go-converted key; other data, other key, 6 other lengths, bit flips; Ed25519 compared byte for byte with crypto/ed25519')
     return D.finish(run, 'proof')
+
+
+@check('C14')
+def c14(run):
+    run.trusted += ['crypto/ecdh (Go standard library): the Diffie-Hellman function is a parameter of the theorems; its symmetry is a hypothesis',
+                    'Gallina curve arithmetic Lib/Curves.v (curve equation, decompression, Jacobian scalar multiplication, RFC 7748 ladder) validated on published vectors (Spec/CurveVectors.v) and against crypto/elliptic case by case',
+                    'harness math/big implementation of affine Weierstrass arithmetic and the X25519 ladder: the independent computation of the shared secrets']
+    run.assumptions += ['decompression returns the point that was compressed: hypothesis of C14_compressed_form_same_point, evaluated on concrete points by the ecdh stream',
+                        'low-order X25519 points are refused by crypto/ecdh (all-zero shared secret): observed by the oracle']
+    targets = ['Model/Ecdh.vo'] + (['Spec/CurveVectors.vo'] if run.tier == 'thorough' else [])
+    D.prove(run, extra_targets=targets)
+    rc, o = D.harness_build()
+    if rc != 0:
+        run.broke('harness build', o[-1500:])
+    else:
+        D.correspond(run, 'ecdh', [], reference_theorem='C14_* (model of KeyToPublic on the remote key: curve and encoded point, or refusal)')
+    run.cov['rule'] = ('4 curves x key pairs (every third searched for a coordinate with a leading zero byte) x public-key encodings {uncompressed, compressed, compressed with stripped x, stripped coordinates, CBOR round trip} on both sides: both secrets equal and equal to the math/big computation; '
+                       'invalid remote keys: private, other curve, off-curve y, compressed x that is no abscissa, x too long, x >= p, missing / text y, X25519 low-order and short points: an error, never a secret or a panic; KeyToPublic compared with the model on all of them; curve equation and decompression compared with crypto/elliptic')
+    return D.finish(run, 'proof')
